@@ -287,6 +287,28 @@ def minimise(text, via_file=False):
     return "\n".join(lines)
 
 
+FIXED_TEXTS = [
+    # blocks under a '-> @join' choice holding malformed or multi-line lines
+    ":: A\n+ [a] -> @join\n    @hook turn_end\n    @unhook\n    @hook a b c\n    @unhook x\n@join\nafter\n",
+    ":: A\n+ [a] -> @join\n    ~ x = [\n    1,\n    2]\n    @hook\n* [b] -> @join\n    ~ y = (\n@join\n",
+    ":: A\n+ [a] -> @join\n\t@hook e\n\t~\n\t~ \n\t@unhook e P Q\n@join\n+ [b] -> @join\n    @hook e P\n    @render\n    @input\n",
+    ":: A(p)\nx\n+ [a] -> A(1, 2)\n", ":: A(p, q=1)\nx\n-> A(1, 2, 3)\n", ":: A(p)\nx\n+ [a] -> A(1, p=2)\n",
+]
+
+
+def fixed_texts(rep):
+    """texts that random sequences reach rarely (indented blocks under a join choice with malformed lines inside)"""
+    n = 0
+    for t in FIXED_TEXTS:
+        for via_file in (False, True):
+            n += 1
+            oc, d = compile_text(t, limit=5.0, via_file=via_file)
+            if oc not in ("story", "diag"):
+                rep.violations.append({"cls": None, "family": "c11-fixed", "what": f"{'compile_file' if via_file else 'compile_string'}: {oc}: {d}", "source": t})
+    rep.coverage.setdefault("families", {})["c11-fixed"] = {"cases": n}
+    rep.coverage["evaluations"] = rep.coverage.get("evaluations", 0) + n
+
+
 def include_cases(rep):
     """@include through compile_file: missing file, cycle, include of a broken file"""
     from bardic.compiler.compiler import BardCompiler
